@@ -5,6 +5,7 @@ import BstreamVerif.Drv.Server
 import BstreamVerif.Drv.ForkableDrv
 import BstreamVerif.Drv.Files
 import BstreamVerif.Drv.IndexDrv
+import BstreamVerif.Drv.FileDrv
 /-
 bsmodel: reads the harness file (op / impl lines grouped in cases) on stdin, prints for every `op`
 line the model's answer (`model …`) and the monitor verdict on the implementation's answer.
@@ -29,6 +30,8 @@ def statefulCase (suite : String) (hdr : List String) (body : List (List String)
   | "forkable" | "hubburst" => some (ForkableDrv.handle hdr body)
   | "dbin" => some (FilesDrv.handleDbin hdr body)
   | "index" => some (IndexDrv.handle hdr body)
+  | "filesrc" => some (FileDrv.handleFileSrc hdr body)
+  | "resolver" => some (FileDrv.handleResolver hdr body)
   | _ => none
 
 def processCase (out : IO.FS.Stream) (hdr : List String) (body : Array (List String)) : IO Unit := do
